@@ -98,6 +98,27 @@ def obligations(tier):
                                         "lost_inside_final_reply", "lost_while_sending_dot", "lost_while_sending_message",
                                         "lost_before_greeting", "lost_at_last_rcpt", "timeout_at_data", "lost_writing_last_rcpt"]
             + (["delivered_h_then_r", "delivered_r_then_s"] if p["NR"] >= 2 else [])),
+        Obl("connect_loop", "connect.c",
+            progs=[Prog("qmail-remote.c", main_as="remote_main", cut=["getcontrols", "addrmangle", "smtp"])],
+            repo=STRALLOC + ["str_chr.c", "scan_ulong.c"], lib=["ideal_substdio.c", "arena_stralloc.c"],
+            defines={"ARENA_CAP": 8, "ARENA_SLOTS": 2},
+            sysrename=["_exit", "socket", "close", "chdir", "getpid", "time"],
+            grid=[{"NIP": n} for n in ([2] if tier == "quick" else [2, 3])],
+            unwind_default=lambda p: p["NIP"] + 3,
+            unwind={"substdio_put": 160, "vf__exit": 161, "scan_ulong": 4, "str_chr": 5, "strlen": 161, "byte_copy": 8, "outsafe": 4},
+            timeout=900,
+            functions=["qmail-remote.c:main", "qmail-remote.c:temp_*", "qmail-remote.c:perm_*", "qmail-remote.c:out", "qmail-remote.c:zerodie"],
+            cuts=["getcontrols -> nothing (control files: C20/C10)", "addrmangle -> nothing (C17)", "smtp -> observer (obligation smtp_dialogue)"],
+            stubs=["dns_ip/dns_mxip: any result code, any list of up to NIP addresses with symbolic preferences 0..3",
+                   "ipme_is, tcpto, socket, timeoutconn: symbolic per address (connects / refused / timed out)", "tcpto_err: observer",
+                   "constmap(smtproutes): no route, or the route r:26", "report stream: ideal stream"],
+            assumes=["up to NIP addresses; preferences 0..3; one recipient"],
+            outside=["the resolver and the timeout table themselves (dns.c walkers: C20; tcpto.c file format not encoded)", "more than NIP addresses"],
+            claim="before the dialogue qmail-remote reports D only for: no such host, no exchanger/address, this host is itself the best-preference "
+                  "exchanger; every kind of connect trouble (refused, timed out, ruled out by the timeout table, no socket, DNS soft error) gives "
+                  "one Z report; candidates are tried in list order, the dialogue runs on the first that connects; exit 0, one report",
+            expect_witnesses=["connected", "connected_to_second_after_first_failed", "dns_soft", "dns_hard", "no_address", "best_preference_mx_is_me",
+                              "every_candidate_ruled_out_by_the_timeout_table", "no_candidate_connected"]),
         Obl("dropped_quit", "dropped.c",
             progs=[Prog("qmail-remote.c", nomain=True)],
             repo=["ip.c", "fmt_ulong.c", "fmt_str.c"], lib=["ideal_substdio.c"],
